@@ -55,6 +55,8 @@ type Operator struct {
 	sourceRunners  *upstreams
 
 	checkpoint *checkpoint
+
+	deployments int // number of HandleDeploy calls so far
 }
 
 // Events bound for the user's handler
@@ -202,7 +204,15 @@ func (o *Operator) HandleDeploy(ctx context.Context, req *workerpb.DeployOperato
 	dkvOpenStart := time.Now()
 
 	// Initialize the DKV filesystem using the ID for a prefix
-	fs, err := storage.NewFileSystemFromLocation(storage.Join(req.StorageLocation, o.id))
+	// A redeployed operator gets a fresh directory: files of its earlier
+	// deployments may be referenced by the checkpoints other operators restore
+	// from, so the new database must not reuse their names.
+	dkvDir := o.id
+	if o.deployments > 0 {
+		dkvDir = fmt.Sprintf("%s-%d", o.id, o.deployments)
+	}
+	o.deployments++
+	fs, err := storage.NewFileSystemFromLocation(storage.Join(req.StorageLocation, dkvDir))
 	if err != nil {
 		return fmt.Errorf("creating filesystem: %w", err)
 	}
